@@ -36,6 +36,8 @@ def stress_docs(rnd, n):
              "```{note}\n# in note\n\n---\n```", ":::{tip}\n(tgt2)=\ninner\n:::", "[ref]: https://e.x\n\n[ref] [ref][]", "<div>html</div>", "$$a=1$$ (eq1)", "$$b$$ (eq1)",
              "# 日本語\n\n[j](#日本語)", "## Ünï ćödé\n\n[](#ünï-ćödé)", "## 123\n\n[n](#123)", "# With {#explicit}\n\n[e](#with) [f](#explicit)",
              "# Same\n\n# Same\n\n[s](#same-1) [t](#same)",
+             "```{verif-titles}\n---\n\nsecond\n```", "```{verif-titles}\nfirst\n\n***\n\n## Heading inside\n\ntext\n\n---\n```",
+             "> ```{verif-titles}\n> a\n>\n> ***\n> ```", "- ```{verif-titles}\n  # t\n\n  ---\n  ```",
              '<div class="admonition">\n<![foo]>\n</div>', '<img src="a.png" alt="x">', '<div class="admonition note">\n<p class="title">T</p>\nbody\n</div>']
     for t in range(n):
         k = rnd.randint(2, 8)
